@@ -6,8 +6,11 @@ import (
 	"errors"
 	"fmt"
 	"math"
+	"os"
 	"strconv"
 	"strings"
+	"sync/atomic"
+	"time"
 
 	"github.com/prometheus/client_golang/prometheus"
 
@@ -140,6 +143,26 @@ func matchersFor(mask int, regexAll bool) [][]*labels.Matcher {
 	return out
 }
 
+// progress is bumped after every op; the watchdog turns a non-terminating call (a cycle in a
+// per-series list makes Select/findInsertionIndex loop forever) into a harness failure.
+var progress atomic.Int64
+
+func watchdog() {
+	last, stale := int64(-1), 0
+	for {
+		time.Sleep(5 * time.Second)
+		if p := progress.Load(); p == last {
+			stale++
+			if stale >= 2 {
+				fmt.Fprintln(os.Stderr, "exemplar suite: an operation did not terminate within 10 s (cyclic exemplar list?)")
+				os.Exit(4)
+			}
+		} else {
+			last, stale = p, 0
+		}
+	}
+}
+
 func runCase(c *h.Ctx, ops []string) {
 	st := newStore(0, 0)
 	stored, evictable := 0, 0
@@ -224,6 +247,7 @@ func runCase(c *h.Ctx, ops []string) {
 			c.Count("out:panic")
 		}
 		c.Op(op, out)
+		progress.Add(1)
 	}
 	if evictable > 0 && stored > evictable {
 		c.Count("case:eviction")
@@ -309,6 +333,7 @@ func main() {
 	}
 	c := h.Init()
 	defer c.Finish()
+	go watchdog()
 	if c.Replay != "" {
 		for _, cs := range c.ReplayCases() {
 			c.Case(strings.TrimPrefix(cs[0], "case "))
